@@ -209,7 +209,7 @@ func buildPre(prog []int) *preState {
 	st.SetNonce(addrP, 1)
 	st.SetBalance(addrP, big.NewInt(progBalance))
 	st.SetState(addrP, slotOne, slotVal)
-	snap, err := observe(st)
+	snap, err := observe(st, nil)
 	if err != nil {
 		panic(fmt.Sprintf("pre-state does not read back: %v", err))
 	}
@@ -291,7 +291,7 @@ func evalTx(p *preState, spec txSpec, tx *types.Transaction, c concrete) *txResu
 			r.fail("rejected-reports-nothing", fmt.Sprintf("error %q but receipt=%v gas=%d cumulative=%d", r.errStr, rc != nil, gasRet, used))
 		}
 		// strict view: what the state would be if the caller finalised it now (on a copy, the original keeps its journal)
-		strict, oerr := observe(st.Copy())
+		strict, oerr := observe(st.Copy(), before)
 		if oerr != nil {
 			r.fail("state-readable", oerr.Error())
 			return r
@@ -330,7 +330,7 @@ func evalTx(p *preState, spec txSpec, tx *types.Transaction, c concrete) *txResu
 		// bit-identical there is nothing a revert could restore; the second read-back is skipped.)
 		if stateDirty {
 			st.RevertToSnapshot(rev)
-			weak, oerr := observe(st)
+			weak, oerr := observe(st, before)
 			if oerr != nil {
 				r.fail("state-readable", oerr.Error())
 				return r
@@ -358,7 +358,7 @@ func evalTx(p *preState, spec txSpec, tx *types.Transaction, c concrete) *txResu
 	if !c.expValid {
 		r.fail("invalid-tx-rejected", fmt.Sprintf("transaction violates pre-check %q but was applied (gasUsed %d)", c.expClass, rc.GasUsed))
 	}
-	after, oerr := observe(st)
+	after, oerr := observe(st, before)
 	if oerr != nil {
 		r.fail("state-readable", oerr.Error())
 		return r
